@@ -11,6 +11,19 @@ def drop_unsorted_caller(ctx, toks):
             i = j + 1; continue
         out.append(toks[i]); i += 1
     return out
+def ticks_backend_types(ctx, toks):
+    """H5Group / DataSet / NDSize of this unit are the abstract records of c13_dims.h (H5GroupT, DataSetT, NDSize1 = a rank-1 extent)"""
+    for t in toks:
+        if t.k == 'id' and t.t == 'H5Group': t.t = 'H5GroupT'
+        elif t.k == 'id' and t.t == 'DataSet': t.t = 'DataSetT'
+        elif t.k == 'id' and t.t == 'NDSize': t.t = 'NDSize1'
+    # NDSize extent(1, n);  (constructor: rank, fill value)  ->  NDSize1 extent = mk_NDSize1(1, n);
+    out = []; i = 0
+    while i < len(toks):
+        if toks[i].t == 'NDSize1' and i + 2 < len(toks) and toks[i + 1].k == 'id' and toks[i + 2].t == '(':
+            out.extend([toks[i], toks[i + 1], P('=', ' '), Tok('id', 'mk_NDSize1', ' ')]); i += 2; continue
+        out.append(toks[i]); i += 1
+    return out
 UNITS = {
     'DataArray_appendSampledDimension': dict(file=DA, locator=r'SampledDimension\s+appendSampledDimension\s*\(', cls='DataArray', cls_file=DA,
                                              classes=['DataArray', 'SampledDimension', 'nstring'], extra_types=['SampledDimension']),
@@ -29,12 +42,15 @@ UNITS['DataArray_appendDataFrameDimension_all'] = dict(file=DA, locator=r'DataFr
 UNITS['DataArrayHDF5_createDimensionGroup'] = dict(file='backend/hdf5/DataArrayHDF5.cpp', locator=r'H5Group\s+DataArrayHDF5::createDimensionGroup\s*\(',
     cls='DataArrayHDF5', cls_file='backend/hdf5/DataArrayHDF5.hpp', classes=['DataArrayHDF5', 'opt_H5Group', 'H5Group', 'nstring'],
     member_functors={'dimension_group': 'DataArrayHDF5_dimension_group'}, member_calls={'dimensionCount': 'DataArrayHDF5_dimensionCount'})
+UNITS['RangeDimensionHDF5_ticks_set'] = dict(file='backend/hdf5/DimensionHDF5.cpp', locator=r'void\s+RangeDimensionHDF5::ticks\s*\((?=\s*const\s+vector<double>)', cls='RangeDimensionHDF5',
+    cls_file='backend/hdf5/DimensionHDF5.hpp', classes=['RangeDimensionHDF5', 'H5GroupT', 'DataSetT', 'NDSize1'], pre_rules=[ticks_backend_types])
 EXTRA = ('bool gh_group_exists; int gh_removed, gh_opened; ndsize_t gh_removed_name, gh_opened_name; bool gh_opened_create;\n''ndsize_t gh_dim_count; int gh_creates; ndsize_t gh_created_index; double gh_created_interval; const double *gh_created_ticks; size_t gh_created_ticks_n;\n'
-         'int gh_offset_sets; double gh_offset_value; int gh_label_sets, gh_unit_sets; int gh_interval_sets; double gh_interval_value; int gh_ticks_sets; int gh_labels_sets; unsigned gh_created_column; int gh_created_with_column;\n')
+         'int gh_offset_sets; double gh_offset_value; int gh_label_sets, gh_unit_sets; int gh_interval_sets; double gh_interval_value; int gh_ticks_sets; int gh_labels_sets; unsigned gh_created_column; int gh_created_with_column;\n'
+         'int gh_bt_setdata, gh_bt_setdata_ticks_name, gh_bt_setextent, gh_bt_write, gh_bt_write_after_extent, gh_bt_opened, gh_bt_data; size_t gh_bt_extent_rank; ndsize_t gh_bt_extent_d0; const double *gh_bt_written; size_t gh_bt_written_n;\n')
 def job(fn, **kw):
     d = dict(name=fn, bodies=[fn], enforce=[fn], replace=[], extra_c=EXTRA, expect_kinds=['postcondition'], timeout=300); d.update(kw); return d
 JOBS = [job('DataArray_appendSetDimension'), job('DataArray_appendDataFrameDimension_col'), job('DataArray_appendDataFrameDimension_all'), job('DataArray_appendSampledDimension'), job('DataArray_appendRangeDimension', replace=['std_is_sorted_n']),
-        job('DataArrayHDF5_createDimensionGroup'), job('SampledDimension_samplingInterval_set'), job('RangeDimension_ticks_set', replace=['std_is_sorted_n'])]
+        job('DataArrayHDF5_createDimensionGroup'), job('SampledDimension_samplingInterval_set'), job('RangeDimension_ticks_set', replace=['std_is_sorted_n']), job('RangeDimensionHDF5_ticks_set')]
 SPEC = dict(contracts=['c13_dims.h'], stubs=[], units=UNITS, jobs=JOBS,
             trusted_base=['CBMC 6.11.0 (C front end, --dfcc, SAT back end)', 'vlib/cxx2c.py idiom map',
                           'back end (DataArrayHDF5 / DimensionHDF5) replaced by a ghost record of what it was asked to store; assumed contract of std::is_sorted at ghost_k',
